@@ -100,6 +100,10 @@ def softmaxVec (n : Nat) (θ : Nat → α) : Nat → α :=
 def probSphereVec (n : Nat) (θ : Nat → α) : Nat → α := fun i =>
   sphereQuotientVec n θ i * sphereQuotientVec n θ i
 
+/-- `DiscreteProbability.forward` with the class-level option `weight` (`_internal.py:579-596`): `p * (1/weight)`, a point of the weighted
+simplex `Σ w_i q_i = 1` -/
+def weightedProb (p w : Nat → α) : Nat → α := fun i => p i * (1 / w i)
+
 end real
 
 section cx
@@ -132,7 +136,8 @@ def trilPairs (dim rank : Nat) : List (Nat × Nat) :=
 
 /-- the `dim × rank` Cholesky-like factor of `to_trace1_psd_cholesky` (`_internal.py:210-265`):
 diagonal `softplus(θ[:rank])`, strictly lower part `θ[rank:]` in `tril_indices` order (real block, then imaginary block),
-everything divided by `sqrt(‖θ[rank:]‖² + ‖softplus(θ[:rank])‖²)`. -/
+everything divided by `sqrt(‖θ[rank:]‖² + ‖softplus(θ[:rank])‖²)`.  (Since c525cad the implementation first rescales both blocks by their
+largest entry to avoid float32 underflow of the squares; the exact map is scale invariant, so the model is unchanged.) -/
 def psdCholFactor (dim rank : Nat) (isReal : Bool) (θ : Nat → α) : NMat K :=
   let N0 := rank * (2 * dim - rank + 1) / 2
   let nOff := if isReal then N0 - rank else 2 * (N0 - rank)
@@ -241,6 +246,9 @@ def soCayley (inv : NMat K → NMat K) (S : Scalars K) (dim order : Nat) (isReal
   let Q := NMat.ofFn dim dim fun r c => (if r = c then 1 else 0) - A.get r c
   let T := matMul dim dim dim (inv P) Q
   matPow dim T (order - 1)
+
+/-- `Stiefel.forward` for `method='so-exp'` / `'so-cayley'` (`_stiefel.py:68-71`): the first `rank` columns `U[..., :rank]` of the SO/SU chart -/
+def soColumns (dim rank : Nat) (U : NMat K) : NMat K := NMat.ofFn dim rank fun r c => U.get r c
 
 /-- the `dim × rank` matrix of `to_stiefel_polar` / `to_stiefel_qr` (`_stiefel.py:103-119, 212-221`):
 `θ.reshape(dim,rank)`, complex: `θ.reshape(2,dim,rank)[0] + 1j θ.reshape(2,dim,rank)[1]`. -/
@@ -555,6 +563,10 @@ def psdDim (dim rank : Nat) (isReal : Bool) : Nat :=
 def symParam (dim : Nat) (isReal isTrace0 : Bool) : Nat :=
   (if isReal then (dim * (dim + 1)) / 2 else dim * dim) - (if isTrace0 then 1 else 0)
 
+/-- number of independent real entries of a real symmetric (`i ≤ j` pairs) / complex Hermitian (`d²`) matrix, minus one if traceless -/
+def symEntries (dim : Nat) (isReal isTrace0 : Bool) : Nat :=
+  (if isReal then (triuPairs dim).length else dim * dim) - (if isTrace0 then 1 else 0)
+
 /-- `is_norm1` removes one more dimension -/
 def symDim (dim : Nat) (isReal isTrace0 isNorm1 : Bool) : Nat := symParam dim isReal isTrace0 - (if isNorm1 then 1 else 0)
 
@@ -573,7 +585,10 @@ def simplexDim (dim : Nat) : Nat := dim - 1
 
 /-- `SpecialOrthogonal.__init__` (`_internal.py:652-657`) -/
 def soParam (dim : Nat) (isReal : Bool) : Nat := if isReal then dim * (dim - 1) / 2 else dim * dim - 1
-def soDim (dim : Nat) (isReal : Bool) : Nat := if isReal then dim * (dim - 1) / 2 else dim * dim - 1
+/-- dimension of `so(d)` / `su(d)` counted as the number of generators of the Gell-Mann basis that the chart uses:
+the antisymmetric block (`pairs d`) for `SO(d)`; symmetric + antisymmetric + diagonal traceless elements for `SU(d)` -/
+def soDim (dim : Nat) (isReal : Bool) : Nat :=
+  if isReal then (Gellmann.pairs dim).length else 2 * (Gellmann.pairs dim).length + (Gellmann.diagIdx dim).length
 
 /-- Stiefel methods -/
 inductive StMethod | choleskyL | qr | polar | soExp | soCayley | euler
